@@ -2,6 +2,7 @@
 // overwrites with the same and with different shapes, reopen cycles with each access level) against the REAL
 // CheckpointFile / CheckpointWriter / CheckpointReader and the system HDF5.  Every read uses a fresh handle on the file.
 #include "common.h"
+#include <memory>
 #include <sstream>
 #include <unistd.h>
 #include <votca/xtp/checkpoint.h>
@@ -61,14 +62,15 @@ static Val gen(Rng &r, const std::string &kind) {
   return v;
 }
 
+static bool g_noarg = false;    // the root group through the overloads without argument (getWriter() / getReader())
 static CheckpointWriter writer_at(CheckpointFile &f, const std::string &path) {
-  if (path == "/") return f.getWriter("/");
+  if (path == "/") return g_noarg ? f.getWriter() : f.getWriter("/");
   if (path == "/g1") return f.getWriter("/g1");
   if (path == "/g2") return f.getWriter("/g2");
   return f.getWriter("/g1").openChild("sub");       // "/g1/sub"
 }
 static CheckpointReader reader_at(CheckpointFile &f, const std::string &path) {
-  if (path == "/") return f.getReader("/");
+  if (path == "/") return g_noarg ? f.getReader() : f.getReader("/");
   if (path == "/g1") return f.getReader("/g1");
   if (path == "/g2") return f.getReader("/g2");
   return f.getReader("/g1").openChild("sub");
@@ -123,11 +125,13 @@ static void show_rows(std::ostringstream &o, const std::vector<RowVal> &v) {
   o << " " << v.size();
   for (auto &x : v) o << " " << x.id << " " << hexs(x.label) << " " << dexact(x.x) << " " << dexact(x.w) << " " << x.k;
 }
+static bool g_rowwise = false;     // rows written / read one at a time (writeToRow / readFromRow) instead of as one block
 static void write_rows(CheckpointWriter &w, const std::string &name, const std::vector<RowVal> &v) {
   CptTable table = w.openTable<RowIO>(name, v.size());
   std::vector<RowIO::data> buf(v.size());
   for (size_t i = 0; i < v.size(); i++) { buf[i].id = v[i].id; buf[i].label = const_cast<char *>(v[i].label.c_str()); buf[i].x = v[i].x; buf[i].w = v[i].w; buf[i].k = v[i].k; }
-  table.write(buf);
+  if (g_rowwise) { for (size_t i = 0; i < v.size(); i++) table.writeToRow(&buf[i], i); }
+  else table.write(buf);
 }
 
 // one table: written, optionally written again under the same name (same or different number of rows), read from a fresh handle
@@ -140,8 +144,9 @@ static void table_scenario(Rng &r, long id) {
   bool again = r.coin();
   int n2 = again ? (r.coin() ? n1 : 1 + (int)r.below(6)) : 0;
   std::vector<RowVal> a = gen_rows(r, n1), b = gen_rows(r, n2);
+  g_rowwise = r.coin(1, 3);
   std::ostringstream o;
-  o << "C17 tbl " << hexs(path);
+  o << "C17 tbl " << hexs(path + (g_rowwise ? "#rowwise" : ""));
   show_rows(o, a);
   o << " " << (again ? 1 : 0);
   show_rows(o, b);
@@ -154,7 +159,7 @@ static void table_scenario(Rng &r, long id) {
     CheckpointReader rd = reader_at(f, path);
     CptTable table = rd.openTable<RowIO>("T");
     std::vector<RowIO::data> buf(table.numRows());
-    table.read(buf);
+    if (g_rowwise) { for (size_t i = 0; i < buf.size(); i++) table.readFromRow(&buf[i], i); } else table.read(buf);
     for (auto &d : buf) back.push_back({(long)d.id, d.label ? std::string(d.label) : std::string("<null>"), d.x, d.w, (long)d.k});
   } catch (std::exception &e) { st3 = "err"; }
   o << " | " << st1 << " " << st2 << " " << st3;
@@ -179,6 +184,8 @@ static void scenario(Rng &r, long id) {
     if (k == 0) what = 0;
     std::string kind = kinds[r.below(13)], path = paths[r.below(4)];
     std::string name = kind + "_" + (char)('a' + r.below(2));
+    // scalars of different kinds under one name: a name written again holds the new value, whatever kind the old one had
+    if ((kind == "i" || kind == "d" || kind == "b" || kind == "s") && r.coin(1, 3)) name = std::string("sc_") + (char)('a' + r.below(2));
     // most reads and many writes go to names that were written before (overwrites, read-after-write)
     if (!keys.empty() && ((what >= 5 && what < 9 && r.coin(4, 5)) || (what < 5 && r.coin(2, 5)))) {
       const Key &q = keys[r.below(keys.size())];
@@ -188,15 +195,22 @@ static void scenario(Rng &r, long id) {
     if (what < 5) {
       Val v = gen(r, kind);
       std::string st = "ok";
+      g_noarg = r.coin();
+      // a read-only handle must refuse also while the same file is open for writing elsewhere in the process (HDF5 then shares the
+      // read-write intent with every handle on the file): half of the read-only attempts run next to a live MODIFY handle
+      std::unique_ptr<CheckpointFile> other;
+      if (level == 0 && k > 0 && r.coin()) { try { other.reset(new CheckpointFile(file, CheckpointAccessLevel::MODIFY)); } catch (std::exception &) {} }
       try {
         CheckpointFile f(file, level == 0 ? CheckpointAccessLevel::READ : (level == 2 && k == 0) ? CheckpointAccessLevel::CREATE : CheckpointAccessLevel::MODIFY);
         CheckpointWriter w = writer_at(f, path);
         write_val(w, v, name);
       } catch (std::exception &e) { st = "err"; }
+      other.reset();
       o << " W " << level << " " << hexs(path) << " " << hexs(name) << " " << st << " " << show(v);
     } else if (what < 9) {
       std::string st = "ok";
       Val v; v.kind = kind;
+      g_noarg = r.coin();
       try {
         CheckpointFile f(file, CheckpointAccessLevel::READ);     // a fresh handle
         CheckpointReader rd = reader_at(f, path);
